@@ -241,7 +241,6 @@ theorem schema_c03 (g : Globals) (hg : g.dialect = .mysql) (hio : g.ignoreOrder 
     (heo : execAll rc [] old = some dbO) (hen : execAll rc [] new = some dbN)
     (hdef : ∀ tb ∈ dbO ++ dbN, tb.name ≠ Migration.defaultMigrationTable)
     (hnofk : ∀ tb ∈ dbO ++ dbN, tb.fks = [])
-    (hncm : ∀ tb ∈ dbO ++ dbN, ∀ c ∈ tb.cols, ∀ k ∈ c.opts, k.noComment = true)
     (hboth : ∀ tbO ∈ dbO, ∀ tbN ∈ dbN, tbO.name = tbN.name →
       Abs.OrderCompatible tbN.colNames tbO.colNames ∧ (∀ n ∈ tbN.colNames ++ tbO.colNames, n ≠ "") ∧ tbO.pk = tbN.pk ∧
       (∀ dc : List String, (∀ c ∈ dc, c ∉ tbN.colNames) →
@@ -253,9 +252,9 @@ theorem schema_c03 (g : Globals) (hg : g.dialect = .mysql) (hio : g.ignoreOrder 
     List.all_eq_true.mpr (fun s hs => Stmt.colSafe_of_elemSafe s (List.all_eq_true.mp ho s hs))
   have hnc : new.all Stmt.colSafe = true :=
     List.all_eq_true.mpr (fun s hs => Stmt.colSafe_of_elemSafe s (List.all_eq_true.mp hn s hs))
-  obtain ⟨d, outU, hd, hU, _, hjU⟩ := schema_spec_up g hg hio rc old new dbO dbN ho hn hpo hpn heo hen hdef hnofk hncm
+  obtain ⟨d, outU, hd, hU, _, hjU⟩ := schema_spec_up g hg hio rc old new dbO dbN ho hn hpo hpn heo hen hdef hnofk
     (fun a ha b hb e => by obtain ⟨x1, x2, x3, x4, _⟩ := hboth a ha b hb e; exact ⟨x1, x2, x3, x4⟩)
-  obtain ⟨d2, outD, hd2, hD, _, hjD⟩ := schema_spec_down g hg hio rc old new dbO dbN ho hn hpo hpn heo hen hdef hnofk hncm
+  obtain ⟨d2, outD, hd2, hD, _, hjD⟩ := schema_spec_down g hg hio rc old new dbO dbN ho hn hpo hpn heo hen hdef hnofk
     (fun a ha b hb e => by obtain ⟨x1, x2, x3, _, x5⟩ := hboth a ha b hb e; exact ⟨x1, x2, x3, x5⟩)
   have : d2 = d := by rw [hd] at hd2; exact (Except.ok.inj hd2).symm
   subst this
